@@ -586,3 +586,14 @@ Definition detached_index (codec : N) (hb : bytes) (bs : list block) : option by
   | None => None
   | Some i0 => Some (idx_write (idx_load (regen_records_hb hb bs) i0))
   end.
+
+(* executable guard of the partial verify-closure theorems: the index bytes parse and answer for
+   every non-identity CID (that this always holds of a generated index is C03 / C11) *)
+Definition index_answers (ibytes : bytes) (cids : list bytes) : bool :=
+  match idx_read ibytes with
+  | Ok (i, _) => forallb (idx_knows i) cids
+  | Err _ => false
+  end.
+
+Definition roots_present (roots : list bytes) (bs : list block) : bool :=
+  forallb (cid_in (map fst bs)) roots.
